@@ -34,7 +34,9 @@ type Prog struct {
 	globalNN map[*ssa.Global]bool
 
 	// parameter names at the time the rule tables were written: function key -> names by position
-	Names map[string][]string
+	Names    map[string][]string
+	Locals   map[string][][2]string // named in-memory locals (name, type) in order of appearance
+	localMap map[string]map[string]string
 
 	// thorough tier: VTA call graph over the whole program (dynamic call sites resolved by value flow)
 	Dyn map[ssa.CallInstruction][]*ssa.Function
